@@ -156,7 +156,18 @@ def oracles(ctx, deep):
         runs += 1
         x, m = _make(case)
         try:
+            x_before = x.clone()
             y = T.apply_mask(x, m, return_mask=False)
+            if not torch.equal(x.view(torch.int32), x_before.view(torch.int32)):
+                # masking must not alter the k-space it is given: the caller masks it again with another mask
+                add(Violation("mask-alters-input", "apply_mask(return_mask=False) changes the k-space tensor it is given, shape %s mask %s %s" % (case[1], case[2], case[3]), {"case": list(case)}, {"fn": "apply_mask-inplace"}))
+                x = x_before.clone()
+                y = T.apply_mask(x.clone(), m, return_mask=False)
+            y_keep = y.clone()
+            ym, _ = T.apply_mask(x, m, return_mask=True)
+            if not torch.equal(x.view(torch.int32), x_before.view(torch.int32)) or not torch.equal(ym.view(torch.int32), y_keep.view(torch.int32)):
+                add(Violation("mask-alters-input", "apply_mask(return_mask=True) changes its input or disagrees with return_mask=False, shape %s mask %s %s" % (case[1], case[2], case[3]), {"case": list(case)}, {"fn": "apply_mask-inplace"}))
+                x = x_before.clone()
             y2 = T.apply_mask(y, m, return_mask=False)
             hit = (m == 0).expand_as(x) if m.dim() == x.dim() else (m == 0).expand(x.shape)
             xb, yb = x.view(torch.int32), y.view(torch.int32)
@@ -213,7 +224,11 @@ def oracles(ctx, deep):
             ref = torch.where(mask == 0, torch.zeros(1), fwd(T.expand_operator(img, S, dim=1), dim=(2, 3)))
             if not torch.equal(f, ref):
                 add(Violation("forward-operator-value", "MRIModelEngine._forward_operator != mask * F(S x) on the support, %s" % cfg, {"config": cfg}, {"fn": "_forward_operator"}))
+            k_before, k2_before = k.clone(), k2.clone()
             b1, b2 = eng._backward_operator(k, S, mask), eng._backward_operator(k2, S, mask)
+            if not torch.equal(k, k_before) or not torch.equal(k2, k2_before):
+                add(Violation("mask-alters-input", "MRIModelEngine._backward_operator changes the k-space tensor it is given, %s" % cfg, {"config": cfg}, {"fn": "_backward_operator-inplace"}))
+                k, k2 = k_before.clone(), k2_before.clone()
             if not torch.equal(b1, b2):
                 add(Violation("noninterference", "MRIModelEngine._backward_operator depends on unsampled k-space (max diff %.3g), %s" % (float((b1 - b2).abs().max()), cfg), {"config": cfg}, {"fn": "_backward_operator"}))
             ll = MRILogLikelihood(fwd, bwd)
